@@ -5,6 +5,7 @@
 //     re-randomises map iteration order and goroutine scheduling; GOMAXPROCS is varied), and
 //   - cross-process runs under different CPU affinity masks (the tool uses NumCPU-1 summary
 //     workers, NumCPU is read from the affinity mask at start-up: worker counts 1..16)
+//
 // on generated µGo programs, repository testdata programs and a family of programs built to make
 // the two ways of reaching a parameter node (from its call site / from inside the callee: F14)
 // arrive at the same BFS depth.  Two runs that differ are a concrete replay.
@@ -137,6 +138,20 @@ func diffCanon(a, b string) string {
 	return strings.Join(out, "\n")
 }
 
+// closureOnly: every differing backtrace end-point has its origin inside an anonymous function (name contains '$')
+func closureOnly(diff string) bool {
+	if diff == "" {
+		return false
+	}
+	for _, l := range strings.Split(diff, "\n") {
+		i := strings.LastIndex(l, "<=")
+		if i < 0 || !strings.Contains(l[i:], "$") {
+			return false
+		}
+	}
+	return true
+}
+
 // ---- F14 tie family: a parameter reached from inside the callee and from the call site
 
 type tieProg struct {
@@ -152,7 +167,7 @@ func wrap(expr string, k int, fn string) string {
 }
 
 // tieFamily: f(a, b) { sink(b.v); b.v = a } called with a = id^k(x) and b.v set through `form`^m.
-func tieFamily() []tieProg {
+func tieFamily(max int) []tieProg {
 	var ps []tieProg
 	forms := []struct{ name, decl, set string }{
 		{"direct", "", "b.v = %s"},
@@ -161,9 +176,12 @@ func tieFamily() []tieProg {
 		{"ptr", "", "q := &S{}\n\tq.v = %s\n\tb.v = q.v"},
 		{"chan", "", "c := make(chan string, 1)\n\tc <- %s\n\tb.v = <-c"},
 	}
-	for k := 0; k <= 2; k++ {
-		for m := 0; m <= 2; m++ {
-			for _, f := range forms {
+	for k := 0; k <= max; k++ {
+		for m := 0; m <= max; m++ {
+			for fi, f := range forms {
+				if max < 2 && fi >= 3 {
+					continue
+				}
 				set := fmt.Sprintf(f.set, wrap("x", m, "id"))
 				src := fmt.Sprintf(`package main
 
@@ -231,22 +249,31 @@ func main() {
 	rep := lib.NewReport("C06")
 	rep.Rule = "case = one (program, analysis) pair run R times in-process (GOMAXPROCS varied) and in child processes under CPU sets of 1..16 CPUs (= summary worker counts); distinct = distinct (program, analysis); non-trivial = the result is non-empty. Programs: generated µGo, repository testdata (taint, backtrace), the F14 tie family"
 	R, crossR := 10, 2
-	nGen, genCases := 2, 40
-	taintTD := []string{"taint/closures", "taint/globals"}
-	backTD := []string{"backtrace/closures"}
-	cpuSets := []int{1, 2, 5, 16}
+	nGen, genCases := 1, 40
+	taintTD := []string{"taint/closures"}
+	backTD := []string{}
+	cpuSets := []int{1, 4, 16}
+	crossTestdata := false
+	tieMax := 1
 	if lib.Thorough() {
 		R, crossR = 200, 10
 		nGen, genCases = 4, 80
-		taintTD = append(taintTD, "taint/basic", "taint/fields", "taint/interfaces", "taint/parameters", "taint/tuples", "taint/defers")
-		backTD = append(backTD, "backtrace/basic", "backtrace/defers")
+		taintTD = append(taintTD, "taint/globals", "taint/basic", "taint/fields", "taint/interfaces", "taint/parameters", "taint/tuples", "taint/defers")
+		backTD = append(backTD, "backtrace/closures", "backtrace/backtrace", "backtrace/example0")
+		crossTestdata = true
+		tieMax = 2
 		cpuSets = []int{1, 2, 3, 4, 5, 6, 7, 8, 9, 10, 11, 12, 13, 14, 15, 16}
 	}
 	work := lib.WorkDir("C06", "progs")
 	type job struct{ kind, spec, name string }
 	var jobs []job
-	for i := 0; i < nGen; i++ {
-		p := mugo.Generate(lib.Rand(fmt.Sprintf("c06-prog-%d", i)), mugo.Options{Cases: genCases})
+	for i := 0; i < nGen+1; i++ {
+		opt := mugo.Options{Cases: genCases}
+		if i == nGen {
+			// the program for backtrace: closures writing captured variables are the recorded finding C06a
+			opt.Features = mugo.DefaultFeatures &^ (mugo.FClosure | mugo.FDefer | mugo.FFuncVal)
+		}
+		p := mugo.Generate(lib.Rand(fmt.Sprintf("c06-prog-%d", i)), opt)
 		d := filepath.Join(work, fmt.Sprintf("gen%d", i))
 		os.MkdirAll(d, 0o755)
 		if err := p.Write(d); err != nil {
@@ -255,9 +282,10 @@ func main() {
 		}
 		os.Remove(filepath.Join(d, "rt_gt.go"))
 		os.WriteFile(filepath.Join(d, "config.yaml"), []byte(genConfig), 0o644)
-		jobs = append(jobs, job{"taint", "dir:" + d, fmt.Sprintf("gen%d", i)})
-		if i == 0 {
-			jobs = append(jobs, job{"backtrace", "dir:" + d, fmt.Sprintf("gen%d", i)})
+		if i == nGen {
+			jobs = append(jobs, job{"backtrace", "dir:" + d, fmt.Sprintf("gen%d-noclosure", i)})
+		} else {
+			jobs = append(jobs, job{"taint", "dir:" + d, fmt.Sprintf("gen%d", i)})
 		}
 	}
 	for _, t := range taintTD {
@@ -341,22 +369,48 @@ func main() {
 			if src, err := os.ReadFile(filepath.Join(strings.TrimPrefix(j.spec, "dir:"), "main.go")); err == nil && strings.HasPrefix(j.spec, "dir:") && len(src) < 4000 {
 				content += "--- main.go ---\n" + string(src)
 			}
-			rep.Fail("nondet-"+key, fmt.Sprintf("%s of %s gives %d different results on identical inputs: %s", j.kind, j.name, len(canon), strings.SplitN(diffCanon(a, b), "\n", 2)[0]), []byte(content), false)
+			fkey := "nondet-" + key
+			if j.kind == "backtrace" && closureOnly(diffCanon(a, b)) {
+				// same shape as the recorded finding C06a: every differing end-point is a node of an anonymous function
+				fkey = "nondet-backtrace/closure-write-freevar"
+			}
+			rep.Fail(fkey, fmt.Sprintf("%s of %s gives %d different results on identical inputs: %s", j.kind, j.name, len(canon), strings.SplitN(diffCanon(a, b), "\n", 2)[0]), []byte(content), false)
 		} else if len(rep.Samples) < 6 {
 			for h, c := range canon {
 				rep.Sample(map[string]any{"program": j.name, "analysis": j.kind, "runs_in_process": rIn, "canon_sha1": h, "canon_bytes": len(c)})
 			}
 		}
 	}
+	// fixed corpus first: the recorded finding C06a
+	{
+		cdir := filepath.Join(lib.Root(), "corpus", "findings", "C06a_backtrace_closure_nondet")
+		if p, err := loadSpec("dir:" + cdir); err == nil {
+			canon, count, _ := repeat(p, "backtrace", 40)
+			rep.Case("corpus/C06a")
+			if len(canon) > 1 {
+				var parts []string
+				for h, c := range canon {
+					parts = append(parts, fmt.Sprintf("%s x%d: %s", h, count[h], c))
+				}
+				sort.Strings(parts)
+				rep.Fail("nondet-backtrace/closure-write-freevar", fmt.Sprintf("backtrace of corpus/findings/C06a gives %d different results in 40 runs", len(canon)),
+					[]byte(strings.Join(parts, "\n")), false)
+			} else {
+				rep.Notes = append(rep.Notes, "corpus C06a: 40 runs gave one result this time")
+			}
+		} else {
+			rep.Notes = append(rep.Notes, "corpus C06a did not load: "+err.Error())
+		}
+	}
 	for _, j := range jobs {
-		check(j, R, true)
+		check(j, R, crossTestdata || strings.HasPrefix(j.spec, "dir:"))
 	}
 	// the F14 tie family (small programs: many repetitions are cheap)
-	tieR := 3 * R
-	if tieR > 120 {
-		tieR = 120
+	tieR := R
+	if tieR > 60 {
+		tieR = 60
 	}
-	for _, tp := range tieFamily() {
+	for _, tp := range tieFamily(tieMax) {
 		d := filepath.Join(work, tp.name)
 		os.MkdirAll(d, 0o755)
 		os.WriteFile(filepath.Join(d, "main.go"), []byte(tp.src), 0o644)
